@@ -18,6 +18,7 @@ import ICG.Lemmas.BoundsCommon
 
 namespace ICG.C02
 open ICG Table ICG.SpecSA
+open ICG.BoundsCommon
 
 variable {α : Type} [AddCommGroup α] [LinearOrder α] [IsOrderedAddMonoid α]
 
